@@ -387,6 +387,9 @@ func valueCond(cd *codec, r *Result, ret *ssa.Return) string {
 		if !ce.Val {
 			s = "!" + s
 		}
+		for strings.HasPrefix(s, "!!") {
+			s = s[2:]
+		}
 		cs = append(cs, s)
 	}
 	sort.Strings(cs)
@@ -398,6 +401,10 @@ func condTerm(t *tb, v ssa.Value) string {
 	case *ssa.Parameter:
 		return t.names[x]
 	case *ssa.BinOp:
+		// "a != b" is written as the negation of "a == b", so that a test and its inverted form read alike
+		if x.Op == token.NEQ {
+			return fmt.Sprintf("!(%s == %s)", t.term(x.X), t.term(x.Y))
+		}
 		return fmt.Sprintf("(%s %s %s)", t.term(x.X), x.Op, t.term(x.Y))
 	case *ssa.UnOp:
 		if x.Op == token.NOT {
